@@ -110,7 +110,7 @@ theorem numPre_sim {d : Rune} (hd : IsDelim d) (S : List Rune) (s1 s2 : St) (h :
     simp only []
     rw [numPre_other _ _ _ (by decide) (by decide), numPre_other _ _ _ d48 d45]
     exact ⟨triv, triv, triv, Sim.done _ _ he⟩
-  | sync ch r p1 p2 he =>
+  | sync ch r p1 p2 h0 he =>
     simp only []
     by_cases h48 : ch = 48
     · have hs := next_sim hd S r p1 p2 he
@@ -124,7 +124,7 @@ theorem numPre_sim {d : Rune} (hd : IsDelim d) (S : List Rune) (s1 s2 : St) (h :
         have e3 : lower EOF ≠ 98 := by decide
         simp only [if_neg e1, if_neg e2, if_neg e3, if_neg l120, if_neg l111, if_neg l98]
         exact ⟨triv, triv, triv, Sim.done _ _ he'⟩
-      | sync c r' q1 q2 he' =>
+      | sync c r' q1 q2 h0' he' =>
         simp only []
         have hs2 := next_sim hd S r' q1 q2 he'
         by_cases c1 : lower c = 120
@@ -135,12 +135,12 @@ theorem numPre_sim {d : Rune} (hd : IsDelim d) (S : List Rune) (s1 s2 : St) (h :
           · simp only [if_neg c2]
             by_cases c3 : lower c = 98
             · simp only [if_pos c3]; exact ⟨triv, triv, triv, hs2⟩
-            · simp only [if_neg c3]; exact ⟨triv, triv, triv, Sim.sync _ _ _ _ he'⟩
+            · simp only [if_neg c3]; exact ⟨triv, triv, triv, Sim.sync _ _ _ _ h0' he'⟩
     · by_cases h45 : ch = 45
       · simp only [numPre, if_neg h48, if_pos h45]
         exact ⟨triv, triv, triv, next_sim hd S r p1 p2 he⟩
       · rw [numPre_other _ _ _ h48 h45, numPre_other _ _ _ h48 h45]
-        exact ⟨triv, triv, triv, Sim.sync _ _ _ _ he⟩
+        exact ⟨triv, triv, triv, Sim.sync _ _ _ _ h0 he⟩
 
 /-- a conditional `next` whose test fails on EOF and on the delimiter -/
 theorem condNext_sim {d : Rune} (hd : IsDelim d) (S : List Rune) (P : Int → Bool)
@@ -151,12 +151,12 @@ theorem condNext_sim {d : Rune} (hd : IsDelim d) (S : List Rune) (P : Int → Bo
   | done p1 p2 he =>
     simp only [hE, hD, Bool.false_eq_true, if_false]
     exact ⟨trivial, Sim.done _ _ he⟩
-  | sync ch r p1 p2 he =>
+  | sync ch r p1 p2 h0 he =>
     refine ⟨rfl, ?_⟩
     simp only []
     by_cases hp : P ch = true
     · rw [if_pos hp, if_pos hp]; exact next_sim hd S r p1 p2 he
-    · rw [if_neg hp, if_neg hp]; exact Sim.sync _ _ _ _ he
+    · rw [if_neg hp, if_neg hp]; exact Sim.sync _ _ _ _ h0 he
 
 theorem numA_eq_false (rest : List Rune) (ch : Int) (p : PState) :
     numA rest ch p false =
@@ -207,7 +207,7 @@ theorem Sim.errs_eq {d : Rune} {S : List Rune} {s1 s2 : St} (h : Sim d S s1 s2) 
 theorem Sim.setP {d : Rune} {S : List Rune} {s1 s2 : St} (h : Sim d S s1 s2) (q1 q2 : PState)
     (he : q1.errs = q2.errs) : Sim d S (s1.1, s1.2.1, q1) (s2.1, s2.2.1, q2) := by
   cases h with
-  | sync ch r p1 p2 _ => exact Sim.sync _ _ _ _ he
+  | sync ch r p1 p2 h0 _ => exact Sim.sync _ _ _ _ h0 he
   | done p1 p2 _ => exact Sim.done _ _ he
 
 theorem Sim.condErr {d : Rune} {S : List Rune} {s1 s2 : St} (h : Sim d S s1 s2) (c : Prop) [Decidable c] :
@@ -275,7 +275,7 @@ theorem numC_sim {d : Rune} (hd : IsDelim d) (S : List Rune) (prefx : Int) (tok2
   | done p1 p2 he =>
     exact noexp_case _ _ (Sim.done _ _ he) (by show (lower EOF = 101 || lower EOF = 112) = false; decide)
       (by simp [l101, l112])
-  | sync ch r p1 p2 he =>
+  | sync ch r p1 p2 h0 he =>
     by_cases hx : (lower ch = 101 || lower ch = 112) = true
     · simp only []
       rw [numC_exp _ _ _ _ _ _ hx, numC_exp _ _ _ _ _ _ hx]
@@ -304,15 +304,15 @@ theorem numC_sim {d : Rune} (hd : IsDelim d) (S : List Rune) (prefx : Int) (tok2
       subst e1 e2
       exact ⟨_, _, _, _, hb.condErr (ds1 % 2 = 0), rfl, rfl⟩
     · have hx' : (lower ch = 101 || lower ch = 112) = false := by simpa using hx
-      exact noexp_case _ _ (Sim.sync _ _ _ _ he) hx' hx'
+      exact noexp_case _ _ (Sim.sync _ _ _ _ h0 he) hx' hx'
 
 /-! ### the token text and the final checks -/
 
-theorem consumed_sim {d : Rune} (hd : IsDelim d) (S : List Rune) (c0 : Int) (R0 : List Rune) (s1 s2 : St)
+theorem consumed_sim {d : Rune} (_hd : IsDelim d) (S : List Rune) (c0 : Int) (R0 : List Rune) (s1 s2 : St)
     (h : Sim d S s1 s2) :
     consumed c0 R0 s1.2.1 s1.1 = consumed c0 (R0 ++ d :: S) s2.2.1 s2.1 := by
   cases h with
-  | sync ch r p1 p2 _ =>
+  | sync ch r p1 p2 _ _ =>
     simp only [consumed]
     have hl : (R0 ++ d :: S).length - (r ++ d :: S).length = R0.length - r.length := by
       simp only [List.length_append, List.length_cons]; omega
@@ -338,5 +338,93 @@ theorem numD_sim {d : Rune} (hd : IsDelim d) (S : List Rune) (pre : List Int) (R
   apply h.setP
   have := h.errs_eq
   split <;> split <;> (try split) <;> simp [err, this]
+
+/-- `scanNumber` treats a delimiter after the number as the end of the input -/
+theorem scanNumber_sim {d : Rune} (hd : IsDelim d) (S : List Rune) (pre : List Int) (r : List Rune)
+    (ch : Int) (p1 p2 : PState) (sd neg : Bool) (h0 : 0 ≤ ch) (he : p1.errs = p2.errs) :
+    (scanNumber pre r ch p1 sd neg).1 = (scanNumber pre (r ++ d :: S) ch p2 sd neg).1 ∧
+    Sim d S (scanNumber pre r ch p1 sd neg).2 (scanNumber pre (r ++ d :: S) ch p2 sd neg).2 := by
+  rw [scanNumber_eq, scanNumber_eq]
+  obtain ⟨tok0, base, prefx, digsep0, t1, t2, sd', inv, hA, eA1, eA2⟩ :=
+    numA_sim hd S sd (ch, r, p1) (ch, r ++ d :: S, p2) (Sim.sync _ _ _ _ h0 he)
+  simp only [] at eA1 eA2
+  rw [eA1, eA2]
+  simp only []
+  obtain ⟨tok1, digsep1, u1, u2, inv2, hB, eB1, eB2⟩ := numB_sim hd S tok0 base prefx digsep0 sd' inv t1 t2 hA
+  rw [eB1, eB2]
+  simp only []
+  have hB' : ∃ tok2 q1 q2, Sim d S (u1.1, u1.2.1, q1) (u2.1, u2.2.1, q2) ∧
+      (if digsep1 % 2 = 0 then if neg = true then (Kind.char 45, u1.2.2) else (tok1, err u1.2.2)
+        else (tok1, u1.2.2)) = (tok2, q1) ∧
+      (if digsep1 % 2 = 0 then if neg = true then (Kind.char 45, u2.2.2) else (tok1, err u2.2.2)
+        else (tok1, u2.2.2)) = (tok2, q2) := by
+    have := hB.errs_eq
+    split
+    · split
+      · exact ⟨_, _, _, hB.setP _ _ this, rfl, rfl⟩
+      · exact ⟨_, _, _, hB.setP _ _ (by simp [err, this]), rfl, rfl⟩
+    · exact ⟨_, _, _, hB.setP _ _ this, rfl, rfl⟩
+  obtain ⟨tok2, q1, q2, hB2, e1, e2⟩ := hB'
+  rw [e1, e2]
+  simp only []
+  obtain ⟨tok3, digsep2, v1, v2, hC, eC1, eC2⟩ := numC_sim hd S prefx tok2 digsep1 _ _ hB2
+  simp only [] at eC1 eC2
+  rw [eC1, eC2]
+  simp only []
+  exact numD_sim hd S pre r ch tok3 digsep2 inv2 v1 v2 hC
+
+/-! ### kinds -/
+
+theorem numA_kind (rest : List Rune) (ch : Int) (p : PState) (sd : Bool) :
+    (numA rest ch p sd).1 = .int ∨ (numA rest ch p sd).1 = .float := by
+  cases sd with
+  | true => exact Or.inr rfl
+  | false => rw [numA_eq_false]; exact Or.inl rfl
+
+theorem numB_kind (tok0 : Kind) (base : Nat) (prefx : Int) (digsep0 : Nat) (ch : Int) (rest : List Rune)
+    (p : PState) (sd : Bool) (inv : Int) :
+    (numB tok0 base prefx digsep0 ch rest p sd inv).1 = tok0 ∨
+    (numB tok0 base prefx digsep0 ch rest p sd inv).1 = .float := by
+  cases sd with
+  | true => exact Or.inr rfl
+  | false => exact Or.inl rfl
+
+theorem numC_kind (prefx : Int) (tok2 : Kind) (digsep1 : Nat) (ch : Int) (rest : List Rune) (p : PState) :
+    (numC prefx tok2 digsep1 ch rest p).1 = tok2 ∨ (numC prefx tok2 digsep1 ch rest p).1 = .float := by
+  by_cases hx : (lower ch = 101 || lower ch = 112) = true
+  · rw [numC_exp _ _ _ _ _ _ hx]; exact Or.inr rfl
+  · rw [numC_noexp _ _ _ _ _ _ (by simpa using hx)]; exact Or.inl rfl
+
+/-- a number that did not start with `-` is an Int or a Float token -/
+theorem scanNumber_kind_nonneg (pre : List Int) (rest : List Rune) (ch : Int) (p : PState) (sd : Bool) :
+    (scanNumber pre rest ch p sd false).1 = .int ∨ (scanNumber pre rest ch p sd false).1 = .float := by
+  rw [scanNumber_eq]
+  have hA := numA_kind rest ch p sd
+  generalize numA rest ch p sd = a at hA
+  obtain ⟨tok0, base, prefx, digsep0, ch1, rest1, p1, sd1, inv1⟩ := a
+  simp only [] at hA ⊢
+  have hB := numB_kind tok0 base prefx digsep0 ch1 rest1 p1 sd1 inv1
+  generalize numB tok0 base prefx digsep0 ch1 rest1 p1 sd1 inv1 = b at hB
+  obtain ⟨tok1, digsep1, ch2, rest2, p2, inv2⟩ := b
+  simp only [] at hB ⊢
+  have h1 : tok1 = .int ∨ tok1 = .float := by
+    rcases hB with h | h
+    · rw [h]; exact hA
+    · exact Or.inr h
+  have h2 : ∃ q, (if digsep1 % 2 = 0 then if false = true then (Kind.char 45, p2) else (tok1, err p2)
+      else (tok1, p2)) = (tok1, q) := by
+    split
+    · exact ⟨err p2, by simp⟩
+    · exact ⟨_, rfl⟩
+  obtain ⟨q, hq⟩ := h2
+  rw [hq]
+  simp only []
+  have hC := numC_kind prefx tok1 digsep1 ch2 rest2 q
+  generalize numC prefx tok1 digsep1 ch2 rest2 q = c at hC
+  obtain ⟨tok3, digsep2, ch4, rest4, p4⟩ := c
+  simp only [numD] at hC ⊢
+  rcases hC with h | h
+  · rw [h]; exact h1
+  · exact Or.inr h
 
 end LispModel.Proofs.PrintRead
